@@ -188,3 +188,60 @@ def rule_term(ctx, R):
             R.finding(b.fn, "term:no-zero-cursor", "%s never returns cursor 0 on reaching the end of the collection: a full iteration does not terminate" % nm, b.loc())
         if not mono:
             R.finding(b.fn, "term:position-decreases", "%s can move its position backwards" % nm, b.loc())
+
+
+
+SORT = re.compile(r"^(?:core|std|alloc)::slice::<impl \[.*\]>::(sort|sort_unstable|sort_by|sort_by_key|sort_unstable_by|sort_unstable_by_key|sort_by_cached_key)(::<.*>)?$")
+
+
+def rule_order(ctx, R):
+    """a positional cursor only means something against one fixed order: every indexing of the
+    rebuilt list by a cursor-derived position is dominated by a sort of that very list (hash-map
+    iteration order differs from call to call), or happens only when the cursor is 0"""
+    n = 0
+    for nm in FNS:
+        b = ctx.prog.need(ENGINE + nm)
+        items, cursors = result_roots(b)
+        cur_locals = {c for c in cursors if not isinstance(c, tuple)}
+        sorts = []
+        for i, t in b.calls():
+            if SORT.match(t["f"] or "") and t["a"] and not op_is_const(t["a"][0]):
+                sorts.append((i, rules_rdb.root_locals(b, t["a"][0]) | _deref_roots(b, t["a"][0])))
+        # cursor == 0 regions
+        zero_reg = set()
+        for x, bb in enumerate(b.bbs):
+            for st in bb["s"]:
+                if st["k"] == "=" and st["r"]["k"] == "bin" and st["r"]["op"] in ("Eq", "Ne"):
+                    a, c = st["r"]["a"], st["r"]["b"]
+                    for u, v in ((a, c), (c, a)):
+                        if not op_is_const(u) and op_is_const(v) and const_int(v) == 0 and b.locals[op_place(u)["l"]] == "u64" and (prov.operand_origins(b, u).params()):
+                            t = bb["t"]
+                            if t["k"] == "switch" and op_local(t["d"]) == st["l"]["l"]:
+                                ts = dict(t["ts"])
+                                tgt = t["o"] if st["r"]["op"] == "Eq" else ts.get(0)
+                                if tgt is not None:
+                                    zero_reg |= cfg.edge_dom_set(b, x, tgt)
+        for i, t in b.calls():
+            if re.search(r"<std::vec::Vec<(std::vec::Vec<u8>|\(std::vec::Vec<u8>, f64\))> as std::ops::Index<usize>>::index$", t["f"] or "") and len(t["a"]) == 2:
+                idx_roots = rules_rdb.root_locals(b, t["a"][1]) if not op_is_const(t["a"][1]) else set()
+                if not (idx_roots & cur_locals):
+                    continue
+                n += 1
+                lroots = rules_rdb.root_locals(b, t["a"][0]) | _deref_roots(b, t["a"][0])
+                sorted_dom = any(cfg.dominates(b, si, i) and (sr & lroots) for si, sr in sorts)
+                in_zero = i in zero_reg
+                R.inst(b.fn, "cursor-index", {"function": nm, "at": b.loc(i), "list_sorted_on_every_path": sorted_dom, "only_when_cursor_is_zero": in_zero})
+                if not sorted_dom and not in_zero:
+                    R.finding(b.fn, "cursor-index:list-not-sorted-on-every-path",
+                              "%s indexes the list it rebuilt from the live collection with a position derived from the client's cursor (line %d) on a path where that list has not been sorted: the cursor was a position in a differently ordered list, so elements are returned twice or never" % (nm.upper(), b.bb_line(i)), b.loc(i))
+    R.floor("cursor_index_sites", n)
+
+
+def _deref_roots(b, o):
+    """named locals behind &list / &*list / deref(&list)"""
+    P = prov.operand_origins(b, o)
+    out = set()
+    for r in P.roots:
+        if r[0] == "call":
+            out.add(("call", r[2]))
+    return out
